@@ -82,23 +82,17 @@ func (f *Dotimes) Call(s *slip.Scope, args slip.List, depth int) slip.Object {
 	ns.Let(sym, nil) // use the safe way to verify it's a valid symbol to use for a let.
 	for i := int64(0); i < max; i++ {
 		ns.UnsafeLet(sym, slip.Fixnum(i))
-		for i := 1; i < len(args); i++ {
-			switch args[i].(type) {
-			case slip.List, slip.Funky:
-				switch tr := slip.EvalArg(ns, args, i, d2).(type) {
-				case *slip.ReturnResult:
-					if tr.Tag == nil {
-						return tr.Result
-					}
-					return tr
-				case *GoTo:
-					for i++; i < len(args); i++ {
-						if args[i] == tr.Tag {
-							break
-						}
-					}
-				}
+		switch tr := EvalTagBody(ns, args, 1, d2).(type) {
+		case *slip.ReturnResult:
+			if tr.Tag == nil {
+				return tr.Result
 			}
+			// return-from made sure a block with that name encloses this
+			// form.
+			return tr
+		case *GoTo:
+			// The tag is in an enclosing tagbody.
+			return tr
 		}
 	}
 	ns.UnsafeLet(sym, slip.Fixnum(max))
